@@ -280,7 +280,8 @@ Definition apply_label (l : N) (v : val) : val :=
     end
   (* sd_decl: |v| v == "yes" *)
   else if N.eqb l L_closure_e66119a0 then ret (fun s => VBool (str_eqb s s_yes)) (as_str v)
-  (* element: |(s, c, _)| s.set_content(c) *)
+  (* element: |(s, c, _)| s.set_content(c); since 8357055 the third component is the QName of the
+     end tag (compared with the start tag by nom's verify = Peg.VerifyEq) *)
   else if N.eqb l L_closure_f7047233 then
     match v with VPair (VElement s) (VPair (VContent c) _) => VElement (set_content s c) | _ => VBad end
   else if N.eqb l L_model_Element_from then
@@ -295,8 +296,6 @@ Definition apply_label (l : N) (v : val) : val :=
     end
   else if N.eqb l L_model_AttributeName_from then
     match v with VStr s => VAttName (AnNamespace s) | VQName q => VAttName (AnQName q) | _ => VBad end
-  (* etag: |_| () *)
-  else if N.eqb l L_closure_1528ef68 then VUnit
   (* content: |(head, children)| Content::from((head, children.into_iter().map(ContentCell::from).collect())) *)
   else if N.eqb l L_closure_11e3fda0 then
     match v with
